@@ -37,8 +37,13 @@
 (* names, SparseScan.cplabel frame by frame) are judged by equality with   *)
 (* an array this module accepted (label classes, numbering and count are   *)
 (* covariant under those call shapes: the same kernel on the same float32  *)
-(* values).  NaN pixels are outside this module (no key; the property      *)
-(* statement is silent on them).                                           *)
+(* values).  So are the option arguments: connectedpixels with verbose 1   *)
+(* and 2 must return the certified verbose = 0 array, and                  *)
+(* sparse_connected_pixels the array certified for the threshold REQUESTED *)
+(* (tkey), whatever cut the frame's meta data record (None, 0, negative,   *)
+(* positive arguments x absent / equal / lower / higher recorded cut).     *)
+(* NaN pixels are outside this module (no key; the property statement is   *)
+(* silent on them).                                                        *)
 (***************************************************************************)
 EXTENDS Integers, Sequences, FiniteSets, TLC, Json, IOUtils
 
